@@ -114,7 +114,23 @@ def replacement_table(ctx: Ctx, cname: str):
         return any(isinstance(y, ast.Compare) for y in ast.walk(x)) or any(isinstance(y, ast.Call) and norm(y.func).split(".")[-1] in ("isclose", "logical_or", "logical_and", "logical_not", "less", "greater", "less_equal", "greater_equal", "where") for y in ast.walk(x)) or (isinstance(x, ast.Attribute) and x.attr in ("fitnesses", "maximize"))
 
     sub = _Subst({k: v for k, v in d.items() if len(v) == 1 and not isinstance(v[0], ast.AugAssign) and masky(v[0])}, 5)
-    merges = [c for c in body_walk(r.node) if isinstance(c, ast.Call) and isinstance(c.func, ast.Attribute) and c.func.attr == "merge" and isinstance(c.func.value, ast.Subscript) and c.args and isinstance(c.args[0], ast.Subscript)]
+    def res1(e):
+        hops = 0
+        while isinstance(e, ast.Name) and len(d.get(e.id, [])) == 1 and isinstance(d[e.id][0], (ast.Subscript, ast.Name)) and hops < 3:
+            e = d[e.id][0]
+            hops += 1
+        return e
+
+    # X.merge(Y) with X / Y possibly named first: rebuild the call over the resolved operands
+    merges = []
+    for c0 in body_walk(r.node):
+        if isinstance(c0, ast.Call) and isinstance(c0.func, ast.Attribute) and c0.func.attr == "merge" and len(c0.args) == 1:
+            a, b = res1(c0.func.value), res1(c0.args[0])
+            if isinstance(a, ast.Subscript) and isinstance(b, ast.Subscript):
+                c = ast.Call(func=ast.Attribute(value=a, attr="merge", ctx=ast.Load()), args=[b], keywords=[])
+                ast.copy_location(c, c0)
+                ast.fix_missing_locations(c)
+                merges.append(c)
     half = [c for c in body_walk(r.node) if isinstance(c, ast.Call) and isinstance(c.func, ast.Attribute) and c.func.attr == "merge" and c.args and (isinstance(c.func.value, ast.Subscript) != isinstance(c.args[0], ast.Subscript)) and isinstance(c.func.value, (ast.Subscript, ast.Name)) and isinstance(c.args[0], (ast.Subscript, ast.Name))]
     if not merges and half:
         c = half[0]
